@@ -662,8 +662,12 @@ class OpenSystem:
             
                 dsum = 0.0
                 
+                # energies are taken relative to the lowest one, so that
+                # at least one Boltzmann factor is one at any temperature
+                emin = numpy.amin(numpy.real(numpy.diag(H.data)))
+                
                 for n in range(H._data.shape[0]):
-                    dat[n,n] = numpy.exp(-H.data[n,n]/(kB_intK*T))
+                    dat[n,n] = numpy.exp(-(H.data[n,n]-emin)/(kB_intK*T))
                     dsum += dat[n,n]
 
                 dat *= 1.0/dsum
